@@ -16,3 +16,37 @@ package fuzz
 //@   ghost x uint64
 //@   ensures [cases spec.nat_l(x) 0..8] complete: (len(data) >= int(spec.nat_len(x)) && forall(i, 0, 9, i < int(spec.nat_len(x)) ==> data[i] == spec.nat_byte(x, uint64(i)))) ==> (result0 == x && result1 == int(spec.nat_len(x)))
 //@   ensures reject: result1 == 0 ==> result0 == 0
+
+// C14: the fuzz-protocol frame readers return a value or an error for arbitrary bytes: no run-time panic, and
+// data-dependent allocations bounded by a constant multiple of the bytes supplied.
+//@ func (*ErrorMessage).UnmarshalBinary
+//@   props C14
+//@   requires recv: m != nil
+//@   ensures ok: true
+//@   assigns everything
+//@   opt alloc=8*len(data) + 4096
+
+//@ func (*Features).UnmarshalBinary
+//@   props C14
+//@   requires recv: m != nil
+//@   ensures ok: true
+//@   assigns everything
+
+//@ func (*PeerInfo).UnmarshalBinary
+//@   props C14
+//@   requires recv: m != nil
+//@   ensures ok: true
+//@   assigns everything
+//@   opt alloc=8*len(data) + 4096
+
+//@ func (*StateRoot).UnmarshalBinary
+//@   props C14
+//@   requires recv: m != nil
+//@   ensures ok: true
+//@   assigns everything
+
+//@ func (*GetState).UnmarshalBinary
+//@   props C14
+//@   requires recv: m != nil
+//@   ensures ok: true
+//@   assigns everything
